@@ -9,10 +9,11 @@
   configuration `cfg` (element class normal/slim, indent unit, mini).  The only hypothesis is the one the property
   itself makes (DESIGN §8 #21): no element of the input carries the reserved name of the invisible wrapper.
 
-  String level: `formatter_output_lexes` / `formatter_output_reparses` (below) go from the output *text* back to
-  tokens with the character-level lexer of C01 (`lexStrict`, Model/Lexer.lean) and on to the plain parser's tree, for
-  single-root documents in the strict sub-language and the normal element class (pretty and mini formatter); what is
-  still missing (multi-root documents, the slim classes) is stated under "What is partial".
+  String level: `formatter_output_lexes` / `formatter_output_reparses` / `formatter_roundtrip_strict` (below) go from
+  the output *text* back to tokens with the character-level lexer of C01 (`lexStrict`, Model/Lexer.lean) and on to the
+  plain parser's tree, for all four classes and for single- and multi-root documents in the strict sub-language
+  (lemmas: AHP/Lemmas/FormatLex*.lean); `mini_output_is_fixed_point_text` is C12c on text.  What these statements
+  assume is listed under "What is partial".
 -/
 import AHP.Lemmas.Format
 import AHP.Lemmas.FormatLexMini
@@ -119,10 +120,10 @@ theorem end_tag_text (n ind : Str) (kids : List Node) :
 /-! #### string level: the output text lexes back and re-parses to the same document -/
 
 /-- **C11 (string level, a).**  Any of the four formatter classes (normal or slim element class, mini or an indent
-    unit of spaces/tabs), any token sequence whose plain-parser tree is a document in the strict sub-language (`FNode.Strict`: well-formed names and
-    attribute items, text blocks that are data runs / references / comments, raw-text content free of its closing
-    expression, attribute stores that are re-read unchanged), single- or multi-root (`WrapperOK`): the formatter's
-    output TEXT is in the domain of the strict lexer and lexes to `docToks` — the token rendering of the decorated
+    unit of spaces/tabs), any token sequence whose plain-parser tree is a document in the strict sub-language
+    (`FNode.Strict`: well-formed names and attribute items, text blocks that are data runs / references / comments,
+    raw-text content free of its closing expression, attribute stores that are re-read unchanged), single- or
+    multi-root (`WrapperOK`): the formatter's output TEXT is in the domain of the strict lexer and lexes to `docToks` — the token rendering of the decorated
     tree, each `_indent` glued to the data run before it (or a data run of its own). -/
 theorem formatter_output_lexes (cfg : Cfg) (hi : IndentWS cfg) (toks : List Tok)
     (h : NoWrapperStart toks) (ps : St) (hp : Plain.feed toks = .ok ps)
